@@ -4,6 +4,7 @@ Property theorems only; helper lemmas live in `MesonModel/Version/*Lemmas.lean`.
 All statements quantify over every token tuple (hence, through `tokenize`, over every string).
 -/
 import MesonModel.Version.RangeLemmas
+import MesonModel.Version.TokLemmas
 
 namespace MesonModel.Props.C19
 open MesonModel.Version MesonModel.Py
@@ -155,6 +156,34 @@ theorem extract_bare (s : List Char)
     have := h c rfl
     simp [extractCmpOp, startsWith, this]
     grind
+
+/-- `version_compare(v, op + w)` is the order relation `op` names, applied to the token tuples of
+`v` and `w` themselves: the operator is cut off, and the `strip()` in between is invisible. -/
+theorem versionCompare_ge (v w : List Char) :
+    versionCompare v ('>' :: '=' :: w) = vge (tokenize v) (tokenize w) := by
+  rw [versionCompare_agrees, extract_ge]; simp [CmpOp.apply, tokenize_strip]
+theorem versionCompare_le (v w : List Char) :
+    versionCompare v ('<' :: '=' :: w) = vle (tokenize v) (tokenize w) := by
+  rw [versionCompare_agrees, extract_le]; simp [CmpOp.apply, tokenize_strip]
+theorem versionCompare_ne (v w : List Char) :
+    versionCompare v ('!' :: '=' :: w) = vne (tokenize v) (tokenize w) := by
+  rw [versionCompare_agrees, extract_ne]; simp [CmpOp.apply, tokenize_strip]
+theorem versionCompare_eqeq (v w : List Char) :
+    versionCompare v ('=' :: '=' :: w) = veq (tokenize v) (tokenize w) := by
+  rw [versionCompare_agrees, extract_eqeq]; simp [CmpOp.apply, tokenize_strip]
+theorem versionCompare_eq (v w : List Char) (h : w.head? ≠ some '=') :
+    versionCompare v ('=' :: w) = veq (tokenize v) (tokenize w) := by
+  rw [versionCompare_agrees, extract_eq w h]; simp [CmpOp.apply, tokenize_strip]
+theorem versionCompare_gt (v w : List Char) (h : w.head? ≠ some '=') :
+    versionCompare v ('>' :: w) = vgt (tokenize v) (tokenize w) := by
+  rw [versionCompare_agrees, extract_gt w h]; simp [CmpOp.apply, tokenize_strip]
+theorem versionCompare_lt (v w : List Char) (h : w.head? ≠ some '=') :
+    versionCompare v ('<' :: w) = vlt (tokenize v) (tokenize w) := by
+  rw [versionCompare_agrees, extract_lt w h]; simp [CmpOp.apply, tokenize_strip]
+theorem versionCompare_bare (v s : List Char)
+    (h : ∀ c, s.head? = some c → c ≠ '>' ∧ c ≠ '<' ∧ c ≠ '=' ∧ c ≠ '!') :
+    versionCompare v s = veq (tokenize v) (tokenize s) := by
+  rw [versionCompare_agrees, extract_bare s h]; simp [CmpOp.apply, tokenize_strip]
 
 /-- a constraint list holds iff each constraint holds -/
 theorem compareMany_iff_all (v : List Char) (cs : List (List Char)) :
